@@ -21,7 +21,9 @@ CInit ==
   /\ tid \in 1..Len(Traces) /\ l = 2
   /\ sh = [stopping |-> FALSE, shutdown |-> FALSE, intr |-> 0, flag |-> FALSE, thread |-> 0, gen |-> 0,
            tst |-> IF Traces[tid][1].direct = 1 THEN "alive" ELSE "dead"]
-  /\ lp = [pc |-> IF Traces[tid][1].direct = 1 THEN "runE" ELSE "none", k |-> 0, out |-> "did", ndo |-> 0]
+  /\ lp = LpInit(IF Traces[tid][1].direct = 1 THEN "runE" ELSE "none",
+                 [mn |-> Traces[tid][1].mn, mx |-> Traces[tid][1].mx, p |-> Traces[tid][1].p, q |-> Traces[tid][1].q,
+                  norm |-> Traces[tid][1].norm])
   /\ ac = [a \in Actors |-> AIdle]
   /\ ncalls = 0
   /\ g = GInit /\ ga = GAInit(Actors) /\ bad = {}
@@ -35,7 +37,7 @@ Logged ==
     [] Ev.e = "thS"   -> AThS(Ev.a)
     [] Ev.e = "run"   -> LRunE
     [] Ev.e = "do"    -> LDo(Ev.out)
-    [] Ev.e = "sleep" -> LSleepE(TRUE)
+    [] Ev.e = "sleep" -> RatEq(Request(lp.bp, lp.b), Rat(Ev.req)) /\ LSleepE(Rat(Ev.req))
     [] Ev.e = "until" -> LUntil
     [] Ev.e = "fin"   -> LFinE
     [] Ev.e = "done"  -> LDone
